@@ -67,6 +67,12 @@ m('c02-r2-gradual-hr-offsets', 'C02', 'C02-R2', 'catch:-get_hardrock_offsets', (
 m('c16-r5-strains-extra-setting', 'C16', 'C16-R5', 'mania:settings', (
     'src/mania/strains.rs', "    let values = DifficultyValues::calculate(difficulty, &map);", "    let _scale = if difficulty.get_lazer() { 1.0 } else { 1.0 };\n    let values = DifficultyValues::calculate(difficulty, &map);"))
 
+m('c02-r4-roundtrip', 'C02', 'C02-R4', 'ManiaDifficultyObject.end_time', (
+    'src/mania/difficulty/gradual.rs', "impl ExactSizeIterator for ManiaGradualDifficulty {",
+    "#[allow(unused)]\nfn long_note_ticks(diff_obj: &ManiaDifficultyObject, clock_rate: f64) -> u32 {\n    ((diff_obj.end_time * clock_rate - diff_obj.start_time * clock_rate) / 100.0) as u32\n}\n\nimpl ExactSizeIterator for ManiaGradualDifficulty {"))
+m('c02-r3-second-formula', 'C02', 'C02-R3', 'mania NoteState', (
+    'src/mania/difficulty/gradual.rs', "                NoteState {\n                    curr_combo: count_params.max_combo(),", "                NoteState {\n                    curr_combo: count_params.max_combo().min(u32::MAX - 1) + h.is_circle() as u32 * 0 + 1 - 1,"), allow_miss=True)
+
 # ---- C03 / C04 ----------------------------------------------------------------------------------------------
 m('c03-r2-drop-state', 'C03', 'C03-R2', 'taiko:nth:state', (
     'src/taiko/performance/gradual.rs', "            .state(state)\n", "            .state(TaikoScoreState { misses: state.misses, ..Default::default() })\n"))
